@@ -412,7 +412,9 @@ func (fr *Frame) enterLoop(l *loop, in *State, heads map[*ssa.BasicBlock]*loopHe
 			if !ok {
 				continue
 			}
-			fx.oblige("invariant", fmt.Sprintf("%s/inv_established/%s", name, clauseName(inv, i)), in, t, l.header.Instrs[0].Pos(), inv.Src)
+			if o := fx.oblige("invariant", fmt.Sprintf("%s/inv_established/%s", name, clauseName(inv, i)), in, t, l.header.Instrs[0].Pos(), inv.Src); len(inv.Using) > 0 {
+				o.Using = inv.Using
+			}
 		}
 	}
 	if ri := fr.rangeIndexInfo(l); ri != nil {
@@ -603,7 +605,9 @@ func (fr *Frame) backEdge(h *loopHead, st *State, pos token.Pos) {
 			if !ok {
 				continue
 			}
-			fx.oblige("invariant", fmt.Sprintf("%s/inv_preserved/%s", name, clauseName(inv, i)), st, t, pos, inv.Src)
+			if o := fx.oblige("invariant", fmt.Sprintf("%s/inv_preserved/%s", name, clauseName(inv, i)), st, t, pos, inv.Src); len(inv.Using) > 0 {
+				o.Using = inv.Using
+			}
 		}
 	}
 	if h.spec != nil {
